@@ -95,9 +95,11 @@ def run(ctx):
             tss = [rng.choice(TS_EDGE) if rng.random() < 0.3 else rng.randrange(0, TS_LIMIT) for _ in range(k)]
             # the writer is opened either with the libpcap number or the documented way, DataLinkType<Class>()
             how = rng.choice([str(dlt), 'IP' if dlt == 12 else frames[0][0]])
-            if dlt == 1 and rng.random() < 0.6:
+            if dlt == 1 and (rep == 0 or rng.random() < 0.6):
                 # Ethernet captures: some packets are built through the API and written without ever having been serialized
                 frames = [(('API', None) if rng.random() < 0.4 else f) for f in frames]
+                if rep == 0:
+                    frames[rng.randrange(len(frames))] = ('API', None)
             lines = ['wopen %s' % how] + [('wapi %d %d' % (t, rng.choice([0, 10, 100, 1000])) if b is None else 'wpkt %d %d %s' % (dlt, t, hx(b))) for (e, b), t in zip(frames, tss)] + ['wclose', 'read 1', 'read 0']
             sid = 'w%d' % n
             n += 1
